@@ -24,7 +24,7 @@ RULE = ('cases: for each of the 58 registered PDUs and every Sequence/Choice cla
         'random), every choice alternative, list lengths 0..3, nested values random to the depth of the type, leaves from boundary pools; '
         'each value is encoded (tag list / PDU octets compared) and its encoding decoded (shape + remaining tags compared); malformed '
         'stream = one structural mutation (delete, duplicate, renumber, reclass, swap, truncate, append) of a valid encoding, compared '
-        'on value shape or error class.  non-trivial = value with >= 1 optional present, >= 1 list element or a non-first alternative, '
+        'on value shape or error class; typed Any contents (every constructed type with context-tagged primitive members, alone and in lists, plus the ones met inside generated PDUs) through Any.cast_out TWICE followed by a look at the tag list the Any holds (model: the unchanged input).  non-trivial = value with >= 1 optional present, >= 1 list element or a non-first alternative, '
         'or any malformed input; distinct by (type, operation, input).')
 TRUSTED = ['model coq/theories/Schema.v + Codec.v written by hand after constructeddata.py:78-312,386-524,1022-1191,1245-1275, '
            'basetypes.py:2124-2203 (NameValue), apdu.py:678-717 (APCISequence); tie = in-kernel correspondence on every run',
@@ -194,6 +194,73 @@ def gen_any_tags(rng, depth=0):
     return ts
 
 
+_CARRY = {}
+
+
+def carry_pool():
+    """constructed types an Any may carry: every non-PDU Sequence/Choice class, the ones with context-tagged
+    primitive members first in line (they are what a tag relabelled in place shows up in)"""
+    if not _CARRY:
+        names = [n for n in all_names() if not is_pdu(n) and cdesc(n)['kind'] in ('seq', 'choice')]
+        ctxprim = [n for n in names if any(e['ctx'] is not None and e['type']['k'] == 'atom' for e in cdesc(n)['elements'])]
+        _CARRY.update(all=names, ctxprim=ctxprim)
+    return _CARRY
+
+
+def list_safe(name):
+    """may several values of this class follow each other in a SequenceOf without delimiters?  (conservative:
+    a Choice, or a Sequence whose elements are all context tagged or required un-contexted primitives; a Sequence
+    ending in an un-contexted list, e.g. AtomicReadFileACKAccessMethodRecordAccess, swallows its successors —
+    `wf_ty (TSeqOf t)` is false for it and no table makes a list of it)"""
+    d = cdesc(name)
+    if d['kind'] == 'choice':
+        return True
+    # ... and at least one required element: an all-optional Sequence (SetpointReference) can encode to nothing and
+    # would vanish from a list (`nullable`; again wf_ty (TSeqOf t) is false)
+    return d['kind'] == 'seq' and all(e['ctx'] is not None or (e['type']['k'] == 'atom' and not e['opt']) for e in d['elements']) \
+        and any(not e['opt'] for e in d['elements'])
+
+
+def carried_coq_type(c):
+    form, name = c[0], c[1]
+    if form == 'atom':
+        return '(TAtom %d)' % prim(name)._app_tag
+    return {'class': '%s', 'seqof': '(TSeqOf %s)', 'listof': '(TSeqOf %s)', 'arrayof': '(TArrayOf %s None)'}[form] % tname(name)
+
+
+def carried_py_type(c):
+    from bacpypes import constructeddata as cd
+    form, name = c[0], c[1]
+    if form == 'atom':
+        return prim(name)
+    cls = S()['classes'][name]
+    return {'class': lambda k: k, 'seqof': cd.SequenceOf, 'listof': cd.ListOf, 'arrayof': cd.ArrayOf}[form](cls)
+
+
+def gen_carried(rng):
+    """an Any holding the encoding of a typed value: ('tags', tags, (form, type name, value tree(s)))"""
+    pool = carry_pool()
+    form = rng.choice(['class', 'class', 'class', 'seqof', 'listof', 'arrayof', 'atom'])
+    try:
+        if form == 'atom':
+            nm = rng.choice(ANY_ATOMS)
+            klass = prim(nm)
+            v = leaf_value(klass, rng)
+            return ('tags', [leaf_tag(klass, v)], ('atom', nm, norm_leaf(klass(v).value if nm != 'Null' else ())))
+        name = rng.choice(pool['ctxprim'] if rng.random() < 0.7 else pool['all'])
+        n = 1 if form == 'class' else rng.choice([0, 1, 2, 3] if list_safe(name) else [0])
+        trees, tags = [], []
+        for _ in range(n):
+            tr = gen_class(name, rng, 3)
+            if tree_size(tr) > 30 or features(tr):
+                return None
+            trees.append(tr)
+            tags += impl_encode_tags(name, tr)
+        return ('tags', tags, (form, name, trees))
+    except Exception:
+        return None
+
+
 def gen_type(t, rng, depth, force=None):
     k = t['k']
     if k == 'atom':
@@ -205,6 +272,10 @@ def gen_type(t, rng, depth, force=None):
         klass = prim(nm)
         v = leaf_value(klass, rng)
         return ('aatom', nm, norm_leaf(klass(v).value if nm != 'Null' else ()), leaf_tag(klass, v), v)
+    if k == 'any' and rng.random() < 0.6:
+        c = gen_carried(rng)
+        if c is not None:
+            return c
     if k in ('any', 'seqofany'):
         return ('tags', gen_any_tags(rng))
     if k == 'seqof':
@@ -544,11 +615,199 @@ def case_encode(name, tr, kind='enc'):
 def case_decode_tags(name, tags, kind='dec', nontrivial=True):
     def ok(r):
         obj, rest = r
-        return shape_class(name, obj) + [len(rest)]
+        return shape_class(name, obj) + canon_tags(rest)
     exp = canon_call(lambda: impl_decode_tags(name, tags), ok)
     coq = 'canon_res canon_dec (decode %s %s)' % (tname(name), coq_tags(tags))
     return Case(kind, coq, exp, key=(name, 'dec', repr(tags)), nontrivial=nontrivial,
                 desc={'op': 'decode', 'type': name, 'tags': [list(t[:3]) + [t[3].hex()] for t in tags]})
+
+
+def shape_cast(c, r):
+    form, name = c[0], c[1]
+    if form == 'atom':
+        return [1, prim(name)._app_tag]
+    if form == 'class':
+        return shape_class(name, r)
+    out = [5, len(r)]
+    for x in r:
+        out += shape_class(name, x)
+    return out
+
+
+def impl_cast_history(c, tags):
+    """Any holding `tags`: cast_out twice, then look at the Any's own tag list"""
+    from bacpypes.constructeddata import Any
+    from bacpypes.primitivedata import TagList
+    a = Any()
+    a.tagList = TagList([mk(*t) for t in tags])
+    klass = carried_py_type(c)
+    out = []
+    for _ in range(2):
+        try:
+            r = guarded(lambda: a.cast_out(klass), 3)
+        except _Watchdog:
+            out += [1, 17]      # the loop does not terminate: the model's OutOfFuel (only for lists of a nullable
+            continue            # item type, e.g. ArrayOf(SetpointReference) on a foreign tag; no table has one)
+        except RecursionError:
+            raise
+        except Exception as e:
+            out += [1, exc_code(e)]
+            continue
+        out += [0] + shape_cast(c, r)
+    return out + canon_tags([tt(x) for x in a.tagList.tagList])
+
+
+def case_cast(c, tags, kind='cast'):
+    exp = impl_cast_history(c, tags)
+    coq = 'canon_cast %s %s' % (carried_coq_type(c), coq_tags(tags))
+    return Case(kind, coq, exp, key=('cast', c[0], c[1], repr(tags)), nontrivial=True,
+                desc={'op': 'cast_out x2 + Any.tagList', 'type': '%s of %s' % (c[0], c[1]),
+                      'tags': [list(t[:3]) + [t[3].hex()] for t in tags]})
+
+
+def iter_anys(tr):
+    """the Any values of a tree that carry a typed value, in schema order"""
+    if tr is None:
+        return
+    k = tr[0]
+    if k == 'tags':
+        if len(tr) > 2:
+            yield tr
+    elif k == 'seq':
+        for f in tr[2]:
+            yield from iter_anys(f)
+    elif k == 'choice':
+        yield from iter_anys(tr[3])
+    elif k == 'list':
+        for x in tr[1]:
+            yield from iter_anys(x)
+
+
+def find_anys_type(t, tr, v):
+    """(Any object, carried descriptor) pairs of a decoded value, walking tree and object together"""
+    k = t['k']
+    if k == 'any':
+        if tr is not None and len(tr) > 2:
+            yield v, tr[2]
+    elif k == 'seqof':
+        if hasattr(v, 'subtype'):
+            v = v.value
+        for x, y in zip(tr[1], v):
+            yield from find_anys_type(t['of'], x, y)
+    elif k == 'ref':
+        yield from find_anys_class(t['name'], tr, v)
+
+
+def find_anys_class(name, tr, obj):
+    d = cdesc(name)
+    if d['kind'] == 'seq':
+        for e, f in zip(d['elements'], tr[2]):
+            if f is not None:
+                yield from find_anys_type(e['type'], f, getattr(obj, e['name']))
+    elif d['kind'] == 'choice':
+        e = d['elements'][tr[2]]
+        yield from find_anys_type(e['type'], tr[3], getattr(obj, e['name']))
+
+
+def carried_expected(c):
+    form, name = c[0], c[1]
+    if form == 'atom':
+        return ('leaf', c[2])
+    if form == 'class':
+        return strip(c[2][0])
+    return ('list', tuple(strip(x) for x in c[2]))
+
+
+def carried_extract(c, r):
+    form, name = c[0], c[1]
+    if form == 'atom':
+        return ('leaf', norm_leaf(r))
+    if form == 'class':
+        return extract_class(name, r)
+    return ('list', tuple(extract_class(name, x) for x in r))
+
+
+def history_failure(name, tr):
+    """'observation does not disturb': encode twice; decode twice (fresh objects, then the SAME object); on the
+    decoded value look at every Any with cast_out (twice) and dict_contents, then re-encode: same octets"""
+    from bacpypes.constructeddata import Sequence
+    base = {'type': name, 'value': repr(strip(tr))[:3000], 'tree': repr(tr), 'features': sorted(features(tr))}
+    pdu = is_pdu(name)
+
+    def enc(obj):
+        from bacpypes.primitivedata import TagList
+        from bacpypes.comm import PDUData
+        if pdu:
+            from bacpypes.apdu import APDU
+            a = APDU(); obj.encode(a); return bytes(a.pduData)
+        tl = TagList(); obj.encode(tl); p = PDUData(); tl.encode(p); return bytes(p.pduData)
+
+    def dec(octets, into=None):
+        from bacpypes.primitivedata import TagList
+        from bacpypes.comm import PDUData
+        if pdu:
+            from bacpypes.apdu import APDU
+            a = APDU(); a.pduData = bytearray(octets)
+            obj = into if into is not None else S()['classes'][name]()
+            guarded(lambda: obj.decode(a))
+            return obj
+        tl = TagList(); tl.decode(PDUData(octets))
+        obj = into if into is not None else S()['classes'][name]()
+        guarded(lambda: obj.decode(tl))
+        return obj
+    try:
+        src = build_class(name, tr)
+        o1 = enc(src)
+        o2 = enc(src)
+    except Exception:
+        return None          # refusals are the round-trip predicate's business
+    base['octets'] = o1.hex()
+    if o1 != o2:
+        return dict(base, kind='encode-twice-differs', again=o2.hex())
+    try:
+        a = dec(o1); b = dec(o1)
+        ea, eb = extract_class(name, a), extract_class(name, b)
+    except Exception:
+        return None
+    if ea != eb:
+        return dict(base, kind='decode-twice-differs', first=repr(ea)[:1500], second=repr(eb)[:1500])
+    try:
+        dec(o1, into=b)
+        eb2 = extract_class(name, b)
+    except Exception as e:
+        return dict(base, kind='decode-into-same-object-refused', exc=type(e).__name__, msg=str(e)[:200])
+    if eb2 != ea:
+        return dict(base, kind='decode-into-same-object-differs', first=repr(ea)[:1500], second=repr(eb2)[:1500])
+    try:
+        if enc(b) != o1:
+            return dict(base, kind='reencode-after-second-decode-differs', again=enc(b).hex())
+    except Exception as e:
+        return dict(base, kind='reencode-after-second-decode-refused', exc=type(e).__name__, msg=str(e)[:200])
+    # look at the decoded value `a`
+    for anyobj, c in find_anys_class(name, tr, a):
+        klass = carried_py_type(c)
+        before = [tt(x) for x in anyobj.tagList.tagList]
+        want = carried_expected(c)
+        what = '%s of %s' % (c[0], c[1])
+        for attempt in (1, 2):
+            try:
+                r = guarded(lambda: anyobj.cast_out(klass))
+                got = carried_extract(c, r)
+            except Exception as e:
+                return dict(base, kind='cast-out-refused', carried=what, attempt=attempt, exc=type(e).__name__, msg=str(e)[:200])
+            if got != want:
+                return dict(base, kind='cast-out-value-differs', carried=what, attempt=attempt, got=repr(got)[:1500], want=repr(want)[:1500])
+        after = [tt(x) for x in anyobj.tagList.tagList]
+        if after != before:
+            return dict(base, kind='cast-out-disturbs-any', carried=what, before=repr(before)[:800], after=repr(after)[:800])
+    try:
+        (Sequence.dict_contents(a) if pdu else a.dict_contents())
+        again = enc(a)
+    except Exception as e:
+        return dict(base, kind='reencode-after-observation-refused', exc=type(e).__name__, msg=str(e)[:200])
+    if again != o1:
+        return dict(base, kind='reencode-after-observation-differs', again=again.hex())
+    return None
 
 
 def case_decode_pdu(name, octets, kind='dec-pdu', nontrivial=True):
@@ -668,6 +927,10 @@ def cases(rng, tier):
             except Exception:
                 continue
             nt = nontrivial_tree(tr)
+            for atr in iter_anys(tr):
+                out.append(case_cast(atr[2], atr[1]))
+                if rng.random() < 0.5:
+                    out.append(case_cast(atr[2], mutate_tags(atr[1], rng), 'cast-malformed'))
             # decode the valid encoding, alone and in front of other tags
             out.append(case_decode_tags(name, tags, 'dec', nt))
             if rng.random() < 0.3:
@@ -697,9 +960,57 @@ def cases(rng, tier):
     return out
 
 
+def systematic_carried(rng):
+    """for EVERY constructed type with context-tagged primitive members: one value alone and one list of values,
+    as the typed content of an Any (every run)"""
+    out = []
+    for name in carry_pool()['ctxprim']:
+        for form in ('class', rng.choice(['seqof', 'listof', 'arrayof'])):
+            trees, tags = [], []
+            try:
+                if form != 'class' and not list_safe(name):
+                    raise ValueError
+                for _ in range(1 if form == 'class' else rng.choice([1, 2, 3])):
+                    tr = gen_bounded(name, rng, limit=40)
+                    if features(tr):
+                        raise ValueError
+                    trees.append(tr)
+                    tags += impl_encode_tags(name, tr)
+            except Exception:
+                continue
+            out.append(('tags', tags, (form, name, trees)))
+    return out
+
+
+def standalone_cast_failure(atr):
+    """an Any holding a typed value, outside any PDU: cast_out twice gives the value twice and leaves the Any alone"""
+    from bacpypes.constructeddata import Any
+    from bacpypes.primitivedata import TagList
+    c, tags = atr[2], atr[1]
+    base = {'type': '%s of %s' % (c[0], c[1]), 'value': repr(carried_expected(c))[:2000], 'features': [],
+            'tags': [list(t[:3]) + [t[3].hex()] for t in tags]}
+    a = Any()
+    a.tagList = TagList([mk(*t) for t in tags])
+    klass = carried_py_type(c)
+    want = carried_expected(c)
+    for attempt in (1, 2):
+        try:
+            got = carried_extract(c, guarded(lambda: a.cast_out(klass)))
+        except Exception as e:
+            return dict(base, kind='cast-out-refused', attempt=attempt, exc=type(e).__name__, msg=str(e)[:200])
+        if got != want:
+            return dict(base, kind='cast-out-value-differs', attempt=attempt, got=repr(got)[:1500])
+    after = [tt(x) for x in a.tagList.tagList]
+    if after != list(tags):
+        return dict(base, kind='cast-out-disturbs-any', after=repr(after)[:800])
+    return None
+
+
 def extra_cases(rng, tier):
     """witnesses of the recorded findings and hand-picked boundary inputs"""
     out = []
+    for atr in systematic_carried(rng):
+        out.append(case_cast(atr[2], atr[1], 'cast-systematic'))
     # required un-contexted empty list followed by a closing tag (AtomicReadFile-ACK, record access, no records)
     out.append(case_decode_pdu('AtomicReadFileACK', bytes.fromhex('11 1E 31 00 21 00 1F'.replace(' ', '')), 'witness'))
     out.append(case_decode_pdu('AtomicReadFileACK', bytes.fromhex('111E310021016101AA1F'), 'witness'))
@@ -796,6 +1107,7 @@ def normalise_dict(d):
 def direct(rng, tier, focus=()):
     failures, n, nontriv = [], 0, set()
     per_type = {}
+    nhist = {'histories': 0, 'anys_observed': 0}
     names = all_names()
     samples = []
     reps = 1 if tier == 'quick' else 4
@@ -814,9 +1126,22 @@ def direct(rng, tier, focus=()):
                 per_type[name] = per_type.get(name, 0) + 1
                 if f:
                     failures.append(f)
+                else:
+                    n += 1
+                    h = history_failure(name, tr)
+                    if h:
+                        failures.append(h)
+                    nhist['histories'] += 1
+                    nhist['anys_observed'] += sum(1 for _ in iter_anys(tr))
         if len(samples) < 4 and name in ('ReadPropertyACK', 'WritePropertyRequest', 'IAmRequest', 'EventParameter'):
             tr = gen_bounded(name, rng)
             samples.append({'direct': 'roundtrip', 'type': name, 'value': repr(strip(tr))[:300]})
+    for atr in systematic_carried(rng):
+        n += 1
+        nhist['anys_observed'] += 1
+        f = standalone_cast_failure(atr)
+        if f:
+            failures.append(f)
     n += len(_vectors())
     failures.extend(annexf_failures())
     # smallest first so that the replay written is the most readable one
@@ -840,7 +1165,8 @@ def direct(rng, tier, focus=()):
                                  'implementation': getattr(k, 'serviceChoice', None), 'standard': num})
     n += len(std_asn1.SEQUENCES) + len(std_asn1.CHOICES)
     return failures, {'evaluations': n, 'distinct_nontrivial': len(nontriv), 'types_exercised': len(per_type),
-                      'min_values_per_type': min(per_type.values()) if per_type else 0, 'samples': samples}
+                      'min_values_per_type': min(per_type.values()) if per_type else 0, 'samples': samples,
+                      'observation_histories': nhist['histories'], 'typed_anys_cast_out_twice': nhist['anys_observed']}
 
 
 # worked examples in the style of Annex F.  Each: class, constructor arguments, the octets of the service
@@ -978,6 +1304,7 @@ def replay(payload):
         tr = ast.literal_eval(f['tree'])
         name = f['type']
         print('implementation now:', {k: v for k, v in (roundtrip_failure(name, tr) or {'kind': 'round trip holds'}).items() if k != 'tree'})
+        print('histories now     :', {k: v for k, v in (history_failure(name, tr) or {'kind': 'observation does not disturb: holds'}).items() if k != 'tree'})
         import core
         c = case_encode(name, tr)
         got, err = core.coq_eval(COQ_IMPORTS, c.coq)
